@@ -82,12 +82,20 @@ def cases(tier, seed):
             for xmode in ("spread", "mixed"):
                 for robust in (False, True):
                     out.append({"kind": "twins", "n": n, "alpha": alpha, "xmode": xmode, "robust": robust, "rotations": list(range(n))})
+    # (d) the calibration units are held out of the bound regressions: with a fixed effect whose only reporting unit wanders
+    # through every position (so that it is a calibration unit in some runs and its dummy column is all zero on the training
+    # rows), changing the calibration units' results alone must leave the unadjusted bounds of the outstanding units where
+    # they were
+    for n, alpha in ((12, 0.7), (20, 0.7), (20, 0.9)):
+        out.append({"kind": "heldout", "n": n, "alpha": alpha, "singletons": list(range(n))})
     return out
 
 
 def describe(case):
     if case["kind"] == "calib":
         return {"kind": "calib", "n_sets": len(case["sets"]), "first_set_(score_index,weight)": case["sets"][0]}
+    if case["kind"] == "heldout":
+        return dict(case, singletons=f"the single-unit class at each of the {len(case['singletons'])} reporting positions")
     if case["kind"] == "twins":
         return dict(case, rotations=f"all {len(case['rotations'])} rotations of the residual list against the covariates")
     return dict(case, pop=DISTINCT7 if case["pop"] == "distinct7" else [VALUES[i] for i in case["pop"]])
@@ -273,6 +281,57 @@ def _coverage(case, cov, viol):
 RESID = [-0.42, -0.3, -0.22, -0.15, -0.1, -0.06, -0.02, 0.0, 0.03, 0.07, 0.1, 0.14, 0.2, 0.26, 0.31, 0.4, 0.5, 0.62, 0.7, 0.85]
 
 
+def _heldout(case, cov, viol):
+    import warnings
+
+    import numpy as np
+    import pandas as pd
+
+    from elexmodel.models.NonparametricElectionModel import NonparametricElectionModel
+
+    n, alpha = case["n"], case["alpha"]
+    runs = 0
+    for k in case["singletons"]:
+        res = [RESID[(i * 7 + k) % len(RESID)] for i in range(n)]
+        xs = [((i * 11 + k) % n) / n * 3 for i in range(n)]
+        ws = [float(BIGW * (1 + (i * 3 + k) % 4)) for i in range(n)]
+        cls = ["s" if i == k else ("r" if i % 2 else "u") for i in range(n)]
+
+        def frames(shift):
+            rep = pd.DataFrame({"postal_code": "AA", "geographic_unit_fips": [f"r{i:02d}" for i in range(n)], "last_election_results_turnout": ws,
+                                "results_turnout": [w * (1 + r + s) for w, r, s in zip(ws, res, shift)], "residuals_turnout": [r + s for r, s in zip(res, shift)],
+                                "reporting": 1, "unit_category": "expected", "x1": xs, "county_classification": cls})
+            non = pd.DataFrame({"postal_code": "AA", "geographic_unit_fips": ["o0", "o1", "o2"], "last_election_results_turnout": [float(BIGW)] * 3, "results_turnout": 0.0,
+                                "reporting": 0, "unit_category": "expected", "x1": [0.4, 1.5, 2.6], "county_classification": ["r", "u", "s"]})
+            return rep, non
+
+        def bounds(shift):
+            rep, non = frames(shift)
+            model = NonparametricElectionModel({"features": ["x1"], "fixed_effects": {"county_classification": ["all"]}})
+            with warnings.catch_warnings():
+                warnings.simplefilter("ignore")
+                model.get_unit_predictions(rep, non, "turnout")
+                pi = model.get_unit_prediction_interval_bounds(rep, non, model._compute_conf_frac(n, alpha), alpha, "turnout")
+            return np.asarray(pi.lower, dtype=float), np.asarray(pi.upper, dtype=float), list(pi.conformalization.geographic_unit_fips)
+
+        try:
+            lo0, up0, cal = bounds([0.0] * n)
+            shift = [0.4 if f"r{i:02d}" in cal else 0.0 for i in range(n)]
+            lo1, up1, cal1 = bounds(shift)
+        except Exception as e:
+            viol("heldout-raised", f"n={n} alpha={alpha} singleton at position {k}: {type(e).__name__}: {e}")
+            continue
+        runs += 2
+        if cal1 != cal:
+            viol("calibration-set-depends-on-results", f"n={n} alpha={alpha} singleton at position {k}: calibration units {cal} became {cal1} when only their results changed")
+        elif not (np.allclose(lo0, lo1, atol=1e-9) and np.allclose(up0, up1, atol=1e-9)):
+            viol("calibration-units-not-held-out", f"n={n} alpha={alpha}, class 's' carried by reporting unit r{k:02d} only ({'a calibration unit' if f'r{k:02d}' in cal else 'a training unit'}): raising the results of the {len(cal)} calibration units alone moved the unadjusted bounds of the outstanding units from {lo0.round(4).tolist()} / {up0.round(4).tolist()} to {lo1.round(4).tolist()} / {up1.round(4).tolist()}")
+        if f"r{k:02d}" in cal:
+            cov["heldout_runs_singleton_in_calibration"] += 1
+        cov["heldout_pairs"] += 1
+    return runs, True
+
+
 def _twins(case, cov, viol):
     import warnings
 
@@ -337,8 +396,8 @@ def evaluate(case):
         if not any(v["sig"] == f"C04:{kind}" for v in V):
             V.append({"sig": f"C04:{kind}", "msg": msg})
 
-    if case["kind"] == "twins":
-        runs, nontrivial = _twins(case, cov, viol)
+    if case["kind"] in ("heldout", "twins"):
+        runs, nontrivial = (_heldout if case["kind"] == "heldout" else _twins)(case, cov, viol)
         return {"violations": V, "cov": dict(cov), "outcome": sha([v["sig"] for v in V] + [runs]), "nontrivial": nontrivial, "transitions": max(1, runs)}
     if case["kind"] == "calib":
         runs, nontrivial = _calib(case, cov, viol)
@@ -375,4 +434,4 @@ def post(cases, results, tier, seed):
     return {"violations": viols, "cov": {f"min_coverage_permille_alpha_{a}": int(round(1000 * f)) for a, f in worst.items()}}
 
 
-REQUIRED_COUNTERS = {"calibration_checks": 10000, "orderings": 10000, "tied_scores": 1000, "weighted_differs_from_unweighted": 200, "negative_correction": 500, "exact_knife_edge_sets": 50, "twin_runs": 200, "runs_with_crossing_quantile_lines": 10}
+REQUIRED_COUNTERS = {"calibration_checks": 10000, "orderings": 10000, "tied_scores": 1000, "weighted_differs_from_unweighted": 200, "negative_correction": 500, "exact_knife_edge_sets": 50, "twin_runs": 200, "runs_with_crossing_quantile_lines": 10, "heldout_pairs": 40, "heldout_runs_singleton_in_calibration": 5}
